@@ -235,7 +235,30 @@ def accept_rules(fi, pm):
     src = {unparse(s.targets[0]): unparse(s.value) for s in fi.node.body if isinstance(s, ast.Assign) and len(s.targets) == 1}
     ok = src.get("loss_prev") == "loss(y[:, mask], y_orig[:, mask]).mean()" and \
         src.get("y_orig", "").replace("\n", "").startswith("predict(model, X, args=args")
-    out.append((holds if ok else unrecognised)("R-ACCEPT", fi, role, src.get("loss_prev", "?"), fi.node, nontrivial=False))
+    # sibling agreement: the baseline and the candidate losses restrict target and prediction to the same outputs
+    def _operands(e):
+        for c in ast.walk(e):
+            if isinstance(c, ast.Call) and unparse(c.func) == "loss" and len(c.args) == 2:
+                sig = []
+                for a in c.args:
+                    while isinstance(a, ast.Call) and isinstance(a.func, ast.Attribute) and a.func.attr in ("expand_as", "expand", "contiguous"):
+                        a = a.func.value
+                    sig.append((unparse(a.value), unparse(a.slice)) if isinstance(a, ast.Subscript) else (unparse(a), None))
+                return sig
+        return None
+    base = [s_ for s_ in fi.node.body if isinstance(s_, ast.Assign) and unparse(s_.targets[0]) == "loss_prev"]
+    cand = [s_ for s_ in walk_no_nested(fi.node) if isinstance(s_, ast.Assign) and unparse(s_.targets[0]) == "loss_curr" and "loss(" in unparse(s_.value)]
+    sb = _operands(base[0].value) if base else None
+    sc = _operands(cand[0].value) if cand else None
+    if sb and sc and not ok:
+        slb, slc = {x[1] for x in sb}, {x[1] for x in sc}
+        if slb != slc and (slb == {None} or slc == {None} or len(slb) > 1 or len(slc) > 1):
+            out.append(violation("R-SIB", fi, "the starting loss and the candidate losses are the same objective (same output mask on target and prediction)",
+                                 "baseline `%s` selects %s, candidates `%s` select %s: with a mask that excludes outputs the first acceptance test compares "
+                                 "losses over different outputs" % (unparse(base[0].value), sorted(map(str, slb)), unparse(cand[0].value)[:70].replace("\n", " "), sorted(map(str, slc))), base[0]))
+            ok = None
+    if ok is not None:
+        out.append((holds if ok else unrecognised)("R-ACCEPT", fi, role, src.get("loss_prev", "?"), fi.node, nontrivial=False))
     role = "the function returns the current sequence"
     ret = [s for s in walk_no_nested(fi.node) if isinstance(s, ast.Return)]
     ok = len(ret) == 1 and unparse(ret[0].value) == "X"
